@@ -597,7 +597,7 @@ class Case:
         toks = ed.patch["toks"]
         own = []
         host = self.blocks[ed.b]
-        tp = "L" if (self.isa, self.fmt) == ("ia32", "pe") else ".L"
+        tp = I.temp_prefix(self.isa, self.fmt)
         for t in toks:
             if "lab" in t:
                 nm = (f"{tp}p{ed.reg}_{t['lab'] % 3}" if t.get("temp") else f"g{ed.reg}_{t['lab'] % 3}")
